@@ -168,7 +168,8 @@ class C14(object):
                          'block.judged.with_initial_condition_on_default_time_axis',
                          'block.judged.with_names_differing_from_reserved_ones_by_case', 'block.judged.with_indented_comment_marker',
                          'model_desc.judged',
-                         'block.judged.with_expressions_that_look_like_lag_spellings')
+                         'block.judged.with_expressions_that_look_like_lag_spellings',
+                         'reused_parser.after_a_failed_parse')
 
     def n_cases(self, tier):
         return 300 if tier == 'quick' else 20000
@@ -239,7 +240,15 @@ class C14(object):
         from sfc_models.equation_parser import EquationParser
         used = EquationParser()
         try:
-            used.ParseString('t = k + 1990.\nzz_a = 0.5*zz_a + zz_g\nzz_l = zz_a(k-1)\nzz_a(0) = 2.\nMaxTime = 77\nErr_Tolerance = 0.5\nexogenous\nzz_g = [1.]*80')
+            first_block = 't = k + 1990.\nzz_a = 0.5*zz_a + zz_g\nzz_l = zz_a(k-1)\nzz_a(0) = 2.\nMaxTime = 77\nErr_Tolerance = 0.5\nexogenous\nzz_g = [1.]*80'
+            if case['cseed'] % 3 == 0:
+                # ... and whose parse FAILED (a bad run parameter after the exogenous marker); the caller caught that
+                try:
+                    used.ParseString(first_block + '\nMaxTime = soon')
+                except ValueError:
+                    rec.count('reused_parser.after_a_failed_parse')
+            else:
+                used.ParseString(first_block)
             msg2 = used.ParseString(text)
             again = self.lists_of(used)
         except Exception as e:
